@@ -56,6 +56,26 @@ def check(res, rec):
                       detail=f"pre {rec.pre}\npost {rec.post}\nmodel {rec.model.as_dict()}", replay=rec.replay)
 
 
+def run_warnings_as_errors(ctx):
+    """a mutator that a warning-turned-error ends must not stop half-way: the graph is as before, or as the completed call leaves it"""
+    res = ctx.res
+    h = H(ctx.src, ["edgegraph.builder.explicit", "edgegraph.traversal.helpers"])
+    n = 0
+    import itertools
+    for rec in itertools.chain(struct.core_runs(h, 3, res=res), struct.ctor_runs(h, res=res), struct.explicit_runs(h, res=res, thorough=False)):
+        if not common.warned(rec.out) or rec.mr is struct.DONTCARE:
+            continue
+        n += 1
+        model = rec.model.as_dict() if rec.model is not None else None
+        done = model is not None and not struct.diff_states(rec.post, model)
+        ok = rec.post == rec.pre or done
+        res.ob(ok, sig=("warn", rec.family, rec.lcls, rec.ends, rec.op, rec.arg))
+        if not ok:
+            res.violation("MODEL-STEP", rec.qual, rec.icls, f"{rec.op}({rec.arg}) on a {rec.lcls} with ends {list(rec.ends)} raises {rec.out.excname} half-way: the graph is neither as before nor as the completed call leaves it: "
+                          + "; ".join(struct.diff_states(rec.post, rec.pre)[:4]), detail=f"pre {rec.pre}\npost {rec.post}", replay=rec.replay)
+    res.rule("MODEL-STEP/warnings-as-errors", n)
+
+
 def run(ctx):
     res = ctx.res
     res.rule_text = ("transformer equivalence: for every abstract pre-state (as C01) and every entry point the whole projected post-heap (ordered links of "
